@@ -253,7 +253,7 @@ def run(tier, seed):
     for stats, viols in common.pmap(job_inh, jobs, chunksize=4):
         res.merge_counts(stats)
         res.add_violations(viols)
-    key = (1, 3, 2, False) if tier == 'quick' else (2, 3, 2, True)
+    key = (1, 3, 2, False) if tier == 'quick' else (2, 3, 2, False)
     exprs, models = _partb(*key)
     nch = (len(exprs) + 119) // 120
     per = max(1, len(models) // 48 + 1)
